@@ -195,6 +195,9 @@ def interact (cfg : Cfg) (reads : Bool) (tag : String) (s : St) (tape : List Ev)
           if tcloseFails cfg s then ⟨.raises .closeError, s, rest, [tag]⟩
           else ⟨.raises .timeout, transportClose cfg s, rest, [tag]⟩
         else ⟨.returns, s, rest, [tag]⟩
+      -- the device refuses the login (prompt seen a third time, "Permission denied"): the step raises
+      -- ScrapliAuthenticationFailed with the transport up and the session alive (sync_channel.py:309-312, 401-404)
+      | .authFail => ⟨.raises .authFailed, s, rest, [tag]⟩
       | _ => ⟨if reads && logBroken cfg s then .raises .valueError else .returns, s, rest, [tag]⟩
 
 def Act.tag : Act → String
